@@ -140,9 +140,11 @@ Print Assumptions C16_gs_names_defined_with_failed_drawings.
    pydyf_call; `self.ctm` = the regenerated getter).  Stated with qualified names: proofs/C16_gen_stream.v. *)
 Require WV.base.Py WV.model.C16Py WV.proofs.C16_gen_stream.
 
-(* push_state / pop_state / begin_text / end_text / set_font_size / end_marked_content, executed from their regenerated
-   bodies on the encoding of ANY model state, return the encoding of the model's successor state, and raise exactly
-   when the model has none (IndexError: empty ctm stack; AssertionError: pop_state would empty it) *)
+(* push_state / pop_state / begin_text / end_text / set_font_size / end_marked_content / transform, executed from their
+   regenerated bodies on the encoding of ANY model state, return the encoding of the model's successor state, and raise
+   exactly when the model has none (IndexError: empty ctm stack; AssertionError: pop_state would empty it).  In
+   transform, Matrix(a, b, c, d, e, f) @ self.ctm runs the regenerated constructor and __matmul__ of
+   weasyprint/matrix.py (gen/GenMatrix.v) and the product is stored into the last entry of the ctm stack *)
 Theorem C16_source_methods_compute_model (tagf : WV.base.Py.val -> String.string) (mk : list WV.base.Py.val)
     (others : list (String.string * WV.base.Py.val)) (o : op) (s : st) :
   WV.proofs.C16_gen_stream.tied o = true ->
@@ -154,30 +156,48 @@ Theorem C16_source_methods_compute_model (tagf : WV.base.Py.val -> String.string
 Proof. exact (WV.proofs.C16_gen_stream.gen_tied_step tagf mk others o s). Qed.
 Print Assumptions C16_source_methods_compute_model.
 
-(* sequences: these methods run from their regenerated bodies, every other call by any function on objects that
-   agrees with the model (impl_ok); the run follows the model's run, call by call, errors included *)
+(* begin_marked_content(box, mcid, tag) from its regenerated body, for every box whose element_tag is a str and every
+   tag (a str or None), on the encoding of any state whose nmark is the length of self.marked: never raises, the
+   object after the call is the encoding of m_begin_mc (nothing when _mark is off; /tag BMC; or /tag <</MCID n>> BDC
+   with n = len(self.marked)), the pair (tag, box) is appended to self.marked exactly when an MCID was given out, and
+   nmark is again the length of self.marked *)
+Theorem C16_source_begin_marked_content_computes_model (tagf : WV.base.Py.val -> String.string)
+    (mk : list WV.base.Py.val) (others : list (String.string * WV.base.Py.val))
+    (x : WV.proofs.C16_gen_stream.mc_args) (mcid : bool) (s : st) :
+  WV.model.C16Py.marked_ok mk s ->
+  WV.proofs.C16_gen_stream.src_begin_mc tagf x mcid (WV.model.C16Py.enc mk others s) =
+    inl (WV.model.C16Py.enc (WV.proofs.C16_gen_stream.mc_marked tagf x mcid s mk) others (m_begin_mc mcid s),
+         WV.base.Py.VNone) /\
+  WV.model.C16Py.marked_ok (WV.proofs.C16_gen_stream.mc_marked tagf x mcid s mk) (m_begin_mc mcid s).
+Proof. exact (WV.proofs.C16_gen_stream.gen_begin_mc tagf mk others x mcid s). Qed.
+Print Assumptions C16_source_begin_marked_content_computes_model.
+
+(* sequences: these eight methods run from their regenerated bodies (a call carries the box / tag arguments that
+   begin_marked_content reads), every other call by any function on objects that agrees with the model (impl_ok); the
+   run follows the model's run, call by call, errors included *)
 Theorem C16_source_run_follows_model (tagf : WV.base.Py.val -> String.string)
     (others : list (String.string * WV.base.Py.val)) (impl : op -> WV.base.Py.val -> option WV.base.Py.val)
-    (ops : list op) (mk : list WV.base.Py.val) (s : st) :
-  WV.proofs.C16_gen_stream.impl_ok others impl ->
-  match run ops s with
-  | Some s' => exists mk', WV.proofs.C16_gen_stream.grun tagf impl ops (WV.model.C16Py.enc mk others s) =
-                           Some (WV.model.C16Py.enc mk' others s')
-  | None => WV.proofs.C16_gen_stream.grun tagf impl ops (WV.model.C16Py.enc mk others s) = None
+    (cs : list WV.proofs.C16_gen_stream.call) (mk : list WV.base.Py.val) (s : st) :
+  WV.proofs.C16_gen_stream.impl_ok others impl -> WV.model.C16Py.marked_ok mk s ->
+  match run (map fst cs) s with
+  | Some s' => exists mk', WV.proofs.C16_gen_stream.grun tagf impl cs (WV.model.C16Py.enc mk others s) =
+                           Some (WV.model.C16Py.enc mk' others s') /\ WV.model.C16Py.marked_ok mk' s'
+  | None => WV.proofs.C16_gen_stream.grun tagf impl cs (WV.model.C16Py.enc mk others s) = None
   end.
-Proof. intros H. exact (WV.proofs.C16_gen_stream.grun_model tagf others impl H ops mk s). Qed.
+Proof. intros H. exact (WV.proofs.C16_gen_stream.grun_model tagf others impl H cs mk s). Qed.
 Print Assumptions C16_source_run_follows_model.
 
 (* C16_balanced_calls_give_balanced_tokens about the regenerated methods: every well-bracketed sequence of calls on a
    fresh Stream object runs without raising and leaves in self.stream (= map etok (rev (toks s'))) a token list that
-   is properly nested over q/Q, BT/ET, BMC|BDC/EMC; the ctm stack is back to one entry *)
+   is properly nested over q/Q, BT/ET, BMC|BDC/EMC; the ctm stack is back to one entry.  All the bracket operators
+   (q Q BT ET BMC BDC EMC) and cm are now emitted by regenerated bodies *)
 Theorem C16_source_balanced_calls_give_balanced_tokens (tagf : WV.base.Py.val -> String.string)
     (others : list (String.string * WV.base.Py.val)) (impl : op -> WV.base.Py.val -> option WV.base.Py.val)
-    (mark : bool) (d : egsd) (ops : list op) :
-  WV.proofs.C16_gen_stream.impl_ok others impl -> wb ops = true ->
-  exists s' mk', WV.proofs.C16_gen_stream.grun tagf impl ops (WV.model.C16Py.enc [] others (fresh mark d)) =
+    (mark : bool) (d : egsd) (cs : list WV.proofs.C16_gen_stream.call) :
+  WV.proofs.C16_gen_stream.impl_ok others impl -> wb (map fst cs) = true ->
+  exists s' mk', WV.proofs.C16_gen_stream.grun tagf impl cs (WV.model.C16Py.enc [] others (fresh mark d)) =
                  Some (WV.model.C16Py.enc mk' others s') /\
     nested (rev (toks s')) = true /\ dyck_q (rev (toks s')) = true /\ dyck_text (rev (toks s')) = true /\
     dyck_mc (rev (toks s')) = true /\ length (ctms s') = 1%nat.
-Proof. intros H. exact (WV.proofs.C16_gen_stream.source_balanced tagf others impl H mark d ops). Qed.
+Proof. intros H. exact (WV.proofs.C16_gen_stream.source_balanced tagf others impl H mark d cs). Qed.
 Print Assumptions C16_source_balanced_calls_give_balanced_tokens.
